@@ -15,6 +15,10 @@ func main() {
 	if os.Getenv("VERIF_LOG") != "" {
 		zerolog.SetGlobalLevel(zerolog.DebugLevel)
 	}
+	if os.Getenv("VERIF_BENCH") != "" {
+		benchDuck()
+		return
+	}
 	installHooks()
 	simkit.Main(
 		&simkit.Check{ID: "C09", Gen: genC09, New: func() any { return &C09Plan{} }, Run: runC09, Shrink: shrinkC09, Desc: descC09},
